@@ -238,12 +238,18 @@ struct St {
     prefix: String,
     step_ns: u64,
     tab: usize,
+    /// time scenario run after set_position (mock clock advanced by hand):
+    /// 0 none; 1 slow huge bar: +1.5 s, inc(1); 2 stalled bar: 10 x (+100 ms, inc(10)), +60 s tick,
+    /// +240 s tick, +1 h tick; 3 huge elapsed: +10^18 ns, tick, inc(1), +10^18 ns, tick
+    scen: u8,
 }
+
+const SCEN: [&str; 4] = ["none", "slow-huge-bar", "stalled-bar", "huge-elapsed"];
 
 impl St {
     fn show(&self) -> String {
         format!(
-            "pos={} len={:?} ticks={} fin={} msg=\"{}\" prefix=\"{}\" step={}ns tab={}",
+            "pos={} len={:?} ticks={} fin={} msg=\"{}\" prefix=\"{}\" step={}ns tab={} time={}",
             self.pos,
             self.len,
             self.ticks,
@@ -251,7 +257,8 @@ impl St {
             esc(&self.msg),
             esc(&self.prefix),
             self.step_ns,
-            self.tab
+            self.tab,
+            SCEN[self.scen as usize]
         )
     }
 }
@@ -260,12 +267,19 @@ struct ProbeRes {
     panic: Option<(String, String)>, // (call, message)
     frames: usize,
     bad_width: Option<String>,
+    /// public getters after the calls (None if a call panicked): eta().as_secs() == u64::MAX,
+    /// duration() == Duration::MAX, elapsed() above 10 years
+    eta_sat: bool,
+    dur_max: bool,
+    elapsed_huge: bool,
 }
 
 fn probe(style: &ProgressStyle, st: &St, tw: u16, th: u16) -> ProbeRes {
+    use indicatif::verif_clock::{advance_clock_ns, set_clock_ns, ORIGIN_NS};
+    set_clock_ns(ORIGIN_NS); // every probe starts at the same instant (scenarios advance it by decades)
     indicatif::verif_clock::set_auto_step_ns(st.step_ns);
     let spy = Spy::new(tw, th);
-    let mut res = ProbeRes { panic: None, frames: 0, bad_width: None };
+    let mut res = ProbeRes { panic: None, frames: 0, bad_width: None, eta_sat: false, dur_max: false, elapsed_huge: false };
     let pb = match catch(|| {
         let pb = ProgressBar::with_draw_target(st.len, ProgressDrawTarget::term_like(Box::new(spy.clone())))
             .with_tab_width(st.tab);
@@ -284,10 +298,31 @@ fn probe(style: &ProgressStyle, st: &St, tw: u16, th: u16) -> ProbeRes {
     calls.push(("set_message".into(), Box::new(move |pb| pb.set_message(m.clone()))));
     let pos = st.pos;
     calls.push(("set_position".into(), Box::new(move |pb| pb.set_position(pos))));
+    match st.scen {
+        1 => calls.push(("+1.5s inc(1)".into(), Box::new(|pb| { advance_clock_ns(1_500_000_000); pb.inc(1) }))),
+        2 => {
+            for i in 0..10 {
+                calls.push((format!("+100ms inc(10) #{i}"), Box::new(|pb| { advance_clock_ns(100_000_000); pb.inc(10) })));
+            }
+            for (name, ns) in [("+60s tick", 60_000_000_000u64), ("+240s tick", 240_000_000_000), ("+1h tick", 3_600_000_000_000)] {
+                calls.push((name.into(), Box::new(move |pb| { advance_clock_ns(ns); pb.tick() })));
+            }
+        }
+        3 => {
+            calls.push(("+1e18ns tick".into(), Box::new(|pb| { advance_clock_ns(1_000_000_000_000_000_000); pb.tick() })));
+            calls.push(("inc(1)".into(), Box::new(|pb| pb.inc(1))));
+            calls.push(("+1e18ns tick".into(), Box::new(|pb| { advance_clock_ns(1_000_000_000_000_000_000); pb.tick() })));
+        }
+        _ => {}
+    }
     for i in 0..st.ticks {
         calls.push((format!("tick#{i}"), Box::new(|pb| pb.tick())));
     }
     calls.push(("force_draw".into(), Box::new(|pb| pb.force_draw())));
+    if st.scen != 0 {
+        // what the time getters say at this point (public API), to show the scenario did saturate
+        calls.push(("getters".into(), Box::new(|_| {})));
+    }
     match st.fin {
         1 => calls.push(("finish".into(), Box::new(|pb| pb.finish()))),
         2 => calls.push(("abandon".into(), Box::new(|pb| pb.abandon()))),
@@ -304,6 +339,13 @@ fn probe(style: &ProgressStyle, st: &St, tw: u16, th: u16) -> ProbeRes {
         if let Err(m) = catch(|| f(&pb)) {
             res.panic = Some((name.clone(), m));
             break;
+        }
+        if name == "getters" {
+            if let Ok((e, d, el)) = catch(|| (pb.eta(), pb.duration(), pb.elapsed())) {
+                res.eta_sat = e.as_secs() == u64::MAX;
+                res.dur_max = d == std::time::Duration::MAX;
+                res.elapsed_huge = el.as_secs() > 315_360_000;
+            }
         }
     }
     for o in spy.take() {
@@ -333,6 +375,8 @@ fn panic_kind(m: &str) -> &'static str {
         "rem-zero"
     } else if m.contains("index out of bounds") || m.contains("out of range") {
         "index"
+    } else if m.contains("overflow when") || m.contains("overflow in Duration") {
+        "duration-overflow" // core::time: Duration + Duration, Duration::new, ...
     } else if m.contains("with overflow") {
         "arith-overflow"
     } else if m.contains("capacity overflow") {
@@ -379,6 +423,7 @@ fn literal_lines(t: &str) -> Vec<usize> {
 
 /// Runs a plan; per step (line widths of the frame, height, number of clear_line calls observed).
 fn run_frames(style: &ProgressStyle, template: &str, plan: &FramePlan) -> Result<Vec<(Vec<usize>, u16, usize)>, String> {
+    indicatif::verif_clock::set_clock_ns(indicatif::verif_clock::ORIGIN_NS);
     indicatif::verif_clock::set_auto_step_ns(0);
     let spy = Spy::new(plan.tw, 24);
     let pb = catch(|| {
@@ -515,6 +560,12 @@ fn run_case(s: &mut Session, c: &Case, child: bool) -> String {
             s.count(&format!("probe:width={tw}"));
             s.count(&format!("probe:fin={}", st.fin));
             s.count(if r.frames > 0 { "probe:drew" } else { "probe:drew-nothing" });
+            s.count(&format!("probe:time={}", SCEN[st.scen as usize]));
+            for (b, k) in [(r.eta_sat, "time:eta-saturated(u64::MAX s)"), (r.dur_max, "time:duration=Duration::MAX"), (r.elapsed_huge, "time:elapsed>10y")] {
+                if b {
+                    s.count(k);
+                }
+            }
             let ok = r.panic.is_none();
             if let Some((call, m)) = &r.panic {
                 // narrow class: which configuration, which kind of panic
@@ -524,6 +575,8 @@ fn run_case(s: &mut Session, c: &Case, child: bool) -> String {
                     "ticks-lt2".to_string()
                 } else if let Some((_, rj)) = first_reject {
                     rj.to_string()
+                } else if st.scen != 0 && panic_kind(m) == "duration-overflow" {
+                    format!("{}-duration-overflow", SCEN[st.scen as usize])
                 } else if *tw == 0 {
                     format!("width0-{}", panic_kind(m))
                 } else {
@@ -778,6 +831,7 @@ fn gen_state(r: &mut Rng) -> St {
         prefix: r.pick(TEXTS).to_string(),
         step_ns: *r.pick(&[0u64, 0, 1_000, 1_000_000, 1_000_000_000, 1_000_000_000_000_000]),
         tab: *r.pick(&[8usize, 8, 0, 1, 4, 13, 1000, 5000, 65536]),
+        scen: *r.pick(&[0u8, 0, 0, 0, 0, 1, 2, 3]),
     }
 }
 
@@ -904,7 +958,7 @@ fn corpus(r: &mut Rng) -> Vec<Case> {
             // the boundary states on the narrowest and the widest terminal
             for tw in [0u16, 1, 65535] {
                 for (pos, len, fin) in [(0u64, Some(0u64), 0u8), (u64::MAX, Some(u64::MAX), 1), (u64::MAX, None, 0), (1, Some(3), 2)] {
-                    states.push((St { pos, len, ticks: 3, fin, msg: "\u{65e5}\u{672c}\u{8a9e} msg".into(), prefix: "p\t".into(), step_ns: 1_000_000, tab: 8 }, tw, 24));
+                    states.push((St { pos, len, ticks: 3, fin, msg: "\u{65e5}\u{672c}\u{8a9e} msg".into(), prefix: "p\t".into(), step_ns: 1_000_000, tab: 8, scen: 0 }, tw, 24));
                 }
             }
             let tick_idx = tick_indices(r, &ops);
@@ -913,6 +967,7 @@ fn corpus(r: &mut Rng) -> Vec<Case> {
         .chain(huge_tab_cases())
         .collect();
     v.extend(frame_cases(r));
+    v.extend(time_cases());
     v
 }
 
@@ -926,7 +981,7 @@ fn huge_tab_cases() -> Vec<Case> {
             .iter()
             .flat_map(|tab| {
                 [(80u16, 24u16), (0, 24)].into_iter().map(move |(tw, th)| {
-                    (St { pos: 1, len: Some(3), ticks: 2, fin: 0, msg: msg.to_string(), prefix: prefix.to_string(), step_ns: 1000, tab: *tab }, tw, th)
+                    (St { pos: 1, len: Some(3), ticks: 2, fin: 0, msg: msg.to_string(), prefix: prefix.to_string(), step_ns: 1000, tab: *tab, scen: 0 }, tw, th)
                 })
             })
             .collect(),
@@ -960,6 +1015,35 @@ fn huge_tab_cases() -> Vec<Case> {
         mk("{bar} {pos}", vec![Op::WithKey(s("unused"), s("x"))], "a\tb", "\t", &tabs),
     ]);
     v
+}
+
+/// Saturated time getters: eta() saturates at u64::MAX seconds (`secs_to_duration` casts an f64),
+/// duration() at Duration::MAX (`saturating_add`), elapsed() grows with the mock clock.  Every
+/// time key, alone and together, sized / truncated / styled, for bars whose estimate saturates
+/// (len = u64::MAX advancing slower than 1 step/s; a 1000-step bar that ran at 100 steps/s and
+/// then stalls for minutes and hours; decades of elapsed time).
+fn time_cases() -> Vec<Case> {
+    let keys = ["eta", "eta_precise", "duration", "duration_precise", "elapsed", "elapsed_precise", "per_sec", "bytes_per_sec", "decimal_bytes_per_sec", "binary_bytes_per_sec"];
+    let mut templates: Vec<String> = keys.iter().map(|k| format!("{{{k}}}")).collect();
+    templates.push(keys.iter().map(|k| format!("{{{k}}} ")).collect());
+    templates.push(keys.iter().map(|k| format!("{{{k}:>12!.red}}|")).collect());
+    templates.push("{spinner} {wide_bar} {pos}/{len} {eta} {duration:3!} {per_sec:7} {percent}".to_string());
+    let lens: [(Option<u64>, u8); 9] = [
+        (Some(u64::MAX), 1), (Some(u64::MAX - 1), 1), (Some(1 << 63), 1), (Some(u64::MAX), 3), (Some(1000), 2),
+        (Some(100), 2), (Some(u64::MAX), 2), (None, 3), (Some(5), 3),
+    ];
+    templates
+        .into_iter()
+        .map(|t| {
+            let mut states = vec![];
+            for (len, scen) in lens {
+                for (tw, fin) in [(80u16, 0u8), (0, 0), (10, 1), (80, 2)] {
+                    states.push((St { pos: 0, len, ticks: 1, fin, msg: "m".into(), prefix: "".into(), step_ns: 0, tab: 8, scen }, tw, 24));
+                }
+            }
+            Case { ctor: Ctor::WithTemplate(t), ops: vec![], states, tick_idx: vec![0], frames: vec![] }
+        })
+        .collect()
 }
 
 /// draw_to_term's counter (dadbe71, 7d42cff): frames taller than the terminal (the loop breaks),
@@ -1067,7 +1151,7 @@ fn main() {
     let header = "From IndModel Require Import Base Template Builder.\nOpen Scope N_scope.\n";
     let mut s = Session::new(&a, "C14", header, "bcase", "builder_check");
     s.shard_size = 60;
-    s.rule = "chains constructor(.tick_chars|.tick_strings|.progress_chars|.template|.with_key)* with 0,1,2,3,10 (and more) tick strings / progress clusters of width 0/1/2/mixed (combining marks, ZWJ emoji, flags, CJK, zero-width), templates from the documented grammar (every key, widths 0..65536+, alignment, truncation, styles, wide elements) and junk; every built style drawn on a recording terminal for states (pos/len at 0, 1, len-1, len, len+1, 2^32, 2^64-1, None; finished or not; 19 message/prefix texts; 6 clock regimes) x widths {0,1,2,3,10,80,65535} x heights, and get_tick_str probed at 0,1,n-2,n-1,n,2^32,2^64-2,2^64-1; non-trivial = at least one builder call or a with_template constructor; tab widths 0..65536 at random plus a corpus at 4097, 2^16, 2^20 (expanded) and 2^20..isize::MAX (nothing to expand) and above isize::MAX (D24); 9 literal templates x 15 plans of 6 successive draws with the terminal height changing between draws (taller-than-terminal frames, shrinking terminal, empty frames after finish_and_clear, width/height 0): clear_line calls per draw compared with the model's capped frame counter; distinct = distinct case text".into();
+    s.rule = "chains constructor(.tick_chars|.tick_strings|.progress_chars|.template|.with_key)* with 0,1,2,3,10 (and more) tick strings / progress clusters of width 0/1/2/mixed (combining marks, ZWJ emoji, flags, CJK, zero-width), templates from the documented grammar (every key, widths 0..65536+, alignment, truncation, styles, wide elements) and junk; every built style drawn on a recording terminal for states (pos/len at 0, 1, len-1, len, len+1, 2^32, 2^64-1, None; finished or not; 19 message/prefix texts; 6 clock regimes) x widths {0,1,2,3,10,80,65535} x heights, and get_tick_str probed at 0,1,n-2,n-1,n,2^32,2^64-2,2^64-1; non-trivial = at least one builder call or a with_template constructor; tab widths 0..65536 at random plus a corpus at 4097, 2^16, 2^20 (expanded) and 2^20..isize::MAX (nothing to expand) and above isize::MAX (D24); 9 literal templates x 15 plans of 6 successive draws with the terminal height changing between draws (taller-than-terminal frames, shrinking terminal, empty frames after finish_and_clear, width/height 0): clear_line calls per draw compared with the model's capped frame counter; time scenarios on the mock clock (slow huge bar, stalled bar, decades of elapsed time: eta() = u64::MAX s, duration() = Duration::MAX) with every time key; distinct = distinct case text".into();
     let mut r = Rng::new(a.seed);
     let mut cases = corpus(&mut r);
     let (n, per_width) = if a.thorough { (6000, 2) } else if a.extended { (3000, 1) } else { (700, 1) };
